@@ -3,6 +3,20 @@
 import json, os, glob, re
 HOME = os.path.dirname(os.path.dirname(os.path.abspath(__file__)))
 NOTES = {
+ 'C06-r2b': 'round 2. Initially MISSED: no array was reached through a symlinked directory followed by "..". Added (and handles opened by relative paths)',
+ 'C06-r2c': 'round 2. First evaluation ended with exit 2: the Julia reference interpreter did not know reinterpret(); it now implements it, and the generated program is found ill-formed (ArgumentError for an odd first dimension / wrong dims)',
+ 'C07-r2b': 'round 2. Shows only in README.txt (snippets stale after a truncation that crosses the 3/2 or 2/1 subarray boundary): caught by C08, not by C07, as its author predicted',
+ 'C10-r2b': 'round 2. Initially MISSED: no item with exactly the atom shape (rank one lower); kind atomshaped added',
+ 'C10-r2c': 'round 2. Initially MISSED: all big items were multiples of 4096 bytes; bigtail regime added (72 016-byte items, write refused inside the buffered tail)',
+ 'C11-r2a': 'round 2. Initially MISSED: needs metadata.accessmode set to r+ on its own, then accessmode = r assigned to a handle that already reports r; added as a way of obtaining mode r',
+ 'C11-r2b': 'round 2. Initially MISSED: needs the switch to r while the arrays are held open read-write; added for the mutators guarded by the handle mode (append, iterappend, metadata)',
+ 'C14-r2a': 'round 2. Caught only after values beyond 2**53 were added for fit_frames (exact-integer oracle)',
+ 'C14-r2b': 'round 2. First evaluation killed a worker (the check touched a view of the closed map): the detachment test now precedes any access, as in C12; the accessmode argument of iterchunks is now generated',
+ 'C14-r2c': 'round 2. Caught only after non-integral float parameters were added as an invalid class',
+ 'C18-r2a': 'round 2. Caught by the by-path calls and, since the r+ reopen was added, directly by Array(path, "r+")',
+ 'C18-r2c': 'round 2. Caught only after shapes with a zero extent in a non-first axis over a non-empty file were added',
+ 'C20-r2a': 'round 2. Caught only after the path-re-created-as-the-other-kind scenarios were added',
+ 'C20-r2c': 'round 2. Caught only after user-file names that merely start like a protected name were added',
  'C02-r2a': 'round 2. A C02 seed that needs a short write on the first appended chunk; caught by the C09 check (fault injection), not by C02',
  'C02-r2c': 'round 2. Initially MISSED: truncation was not issued inside open contexts. Array histories now carry a consistency-only truncate inside a context (files, descriptor and a fresh handle must agree; what the truncation should do there is not claimed)',
  'C03-r2c': 'round 2. A C03 seed that needs a write failing part-way; caught by C09',
